@@ -63,6 +63,10 @@ fn real_main() {
     let seed: u64 = a.get("seed").and_then(|s| s.parse().ok()).unwrap_or(1);
     match cmd.as_str() {
         "dump-trees" => dump_trees(),
+        "pedersen" => {
+            let thorough = a.get("tier").map(|t| t == "thorough").unwrap_or(false);
+            write_events(&a["out"], &libl::pedersen(seed, thorough));
+        }
         "psig" => {
             let thorough = a.get("tier").map(|t| t == "thorough").unwrap_or(false);
             write_events(&a["out"], &libl::psig(seed, thorough));
